@@ -27,7 +27,8 @@ CONTRACTS = True
 RULE = ("workload = cases of checks C01,C02,C04,C05,C06,C07,C08,C09,C10,C11,C12 (all kernels are reached through the public classes, never with hand-made raw "
         "arguments) x observer {asan, tsan(threads 2,3,4,7,16 x permuted thread ids x yields), guard pages, differential re-execution (threads 1,2,3,5,8,16 + serial build), serial build}; "
         "an evaluation = one workload case under one observer; non-trivial = the case made at least one kernel call; distinct = (sub-check, case index, observer, threads); "
-        "the M1 tap must have seen every exported kernel with >= 3 distinct shape tuples")
+        "the M1 tap must have seen every exported kernel with >= 3 distinct shape tuples; "
+        "additions of rounds 6-8: picks include a supercell of more than a thousand atoms (C05) and a mesh of thousands of q-points (C10)")
 ASSUMPTIONS = [
     "red-zone tools miss intra-object and far overflows (mitigated by guard pages, not eliminated); TSan sees only the schedules that happened",
     "nanobind glue exercised through the shim; numpy/CPython uninstrumented (MSan not usable)",
